@@ -107,6 +107,12 @@ def judge(o: Dict[str, Any], col: str = "temperature") -> List[Tuple[str, str]]:
     ok, ops = fill_chain(final, orig)
     if not ok:
         bad.append(("data", f"the column finally stored is `{final[:200]}`: only fill-only operations on the same column (autocorrelation fill, time interpolation, ffill, bfill) may write a data column {ctx}"))
+    # nothing remains missing unless the whole column was empty: on the path where values are still missing after every earlier step,
+    # both a forward and a backward fill must have been applied (trusted pandas fact: x.ffill().bfill() has a NaN only if x is all-NaN)
+    still = [v_ for t_, v_ in o["decisions"] if ".isna()" in t_ and "== 0" in t_]
+    if ok and still and not any(still) and not {"ffill", "bfill"} <= set(ops):
+        bad.append(("data", f"values can remain missing in a column that has readings: on the path where every earlier fill left gaps the column ends as `{final[:160]}` "
+                            f"(a forward and a backward fill are both needed to reach leading and trailing gaps) {ctx}"))
     if o["cols"].get(flag) != "False":
         bad.append(("flag", f"the flag column must be initialised False after the fills; found {o['cols'].get(flag)} {ctx}"))
     missing = f"df.loc[{orig}.isna()].index"
